@@ -289,6 +289,10 @@ def run_traces(ctx, n_models):
             add(dict(ev='direct', r=scaled(r), S=S_TRACE), cls0 + ':direct_law', 'direct/(pi 2F Rp^2/d^2) = %r' % r, vec)
         finish_direct_law(ctx, direct)
     fx.reset_all()
+    if not events:
+        if ctx.clauses.get('evaluates_without_error', {}).get('bad'):
+            return          # every model raised: already reported as violations
+        raise Machinery('no trace event was recorded')
     accepted, bad, res = validate_trace('Trace_Emission', 'Trace_Emission.cfg', events)
     ctx.add_tlc('trace-emission', res, counts=False)
     if res.postcondition_false and not bad:
